@@ -1,4 +1,4 @@
 SPECIFICATION TSpec
-INVARIANTS NoPanicT HandshakeT AuthenticT SizeLimitT NoWedgeT HostileT AllocT HostileHsT
+INVARIANTS ListenerT NoPanicT HandshakeT AuthenticT SizeLimitT NoWedgeT HostileT AllocT HostileHsT
 POSTCONDITION TraceAccepted
 CHECK_DEADLOCK FALSE
